@@ -62,6 +62,46 @@ func (c *countingWitness) Update(ctx context.Context, id string, old uint64, cp 
 	return fc.Out, fc.Err
 }
 
+// refBodyMalformed is the harness's own reading of the c2sp.org/tlog-witness body format: true only when the
+// body is clearly malformed (so 400 is the only right answer); a body that a mutation happened to leave
+// well-formed, or whose spelling is in the grey zone, returns false and is left unconstrained.
+func refBodyMalformed(body []byte) bool {
+	if len(body) > 16*1024 {
+		return true
+	}
+	i := bytes.IndexByte(body, '\n')
+	if i < 0 {
+		return true
+	}
+	line := string(body[:i])
+	digits, ok := strings.CutPrefix(line, "old ")
+	if !ok || digits == "" {
+		return true
+	}
+	for _, c := range digits {
+		if c < '0' || c > '9' {
+			return c != ' ' && c != '\r' && c != '+' && c != '\t' // junk after/among the digits is malformed; blanks, CR, '+' are grey
+		}
+	}
+	rest := body[i+1:]
+	for {
+		j := bytes.IndexByte(rest, '\n')
+		if j < 0 {
+			return true // no blank separator before the end
+		}
+		l := strings.TrimSuffix(string(rest[:j]), "\r")
+		rest = rest[j+1:]
+		if l == "" {
+			break
+		}
+		if _, err := base64.StdEncoding.DecodeString(l); err != nil {
+			return true
+		}
+	}
+	// the checkpoint must at least have a first line
+	return !bytes.Contains(rest, []byte("\n"))
+}
+
 var documentedStatuses = map[int]bool{200: true, 400: true, 403: true, 404: true, 409: true, 422: true, 429: true, 500: true}
 
 // ---------------------------------------------------------------- C10
@@ -227,7 +267,10 @@ func c10Exec(t *testing.T, p *Plan) (r *c10Result) {
 			case op.P == "malformed":
 				cr.Kind = "malformed:" + c10MalformKinds[umod(op.PV, len(c10MalformKinds))]
 				cr.Body = c10Malform(strings.TrimPrefix(cr.Kind, "malformed:"), cr.Body, rng)
-				cr.Want = "malformed"
+				cr.Want = "any"
+				if refBodyMalformed(cr.Body) {
+					cr.Want = "malformed"
+				}
 			case !strings.Contains(string(req.CP), "\n"):
 				cr.Want = "malformed"
 			case !listed:
